@@ -112,7 +112,7 @@ def r17_2(prog, out):
             t = blk.term
             if t.k == "call" and t.callee is not None:
                 p = t.callee.path
-                if p in L.MAY_PANIC and not (t.exp and any("select!" in e or "unreachable" in e for e in t.exp)) and not index_from_find(bi, t):
+                if p in L.MAY_PANIC and not (t.exp and any("select!" in e or "unreachable" in e or "debug_assert" in e for e in t.exp)) and not index_from_find(bi, t):
                     bad.append((blk.idx, p))
                 if p.startswith("<tokio::time::Instant as std::ops::Add") or t.callee.target.startswith("<tokio::time::Instant as std::ops::Add"):
                     notes.append("Instant + Duration")
